@@ -207,7 +207,7 @@ impl Prop for C02 {
     type Case = Case;
 
     fn rule() -> String {
-        "proptest event programs on a raw Runtime: start time from {0,1ns,2.5ms,1s,10s,12345.678s}, calendar parameters (n,t), a forest of events \
+        "proptest event programs on a raw Runtime: start time from {0,1ns,2.5ms,1s,10s,12345.678s}, calendar parameters (n,t) (in one case of eleven 8 buckets of 2^62 ns, so that a few bucket widths carry the clock beyond 2^64 ns), a forest of events \
          (roots scheduled before run at start+delta, children scheduled by their parent's handler via add_event(now+delta) / add_event_in(delta), delta \
          from {0, ns, width-1, width, width+1, k widths, year, year+k, tie with an earlier event}), plus attempts to schedule before the current time \
          (before the run and inside handlers) under catch_unwind. Oracle: every handler sees now()==model timestamp, non-decreasing, each event once, \
